@@ -54,9 +54,11 @@ def EB(c): return [10, c]                 # real leptos <ErrorBoundary>
 def SU(fb, c): return [11, fb, c]         # real leptos <Suspense fallback=fb>
 def TR(fb, c): return [12, fb, c]         # real leptos <Transition fallback=fb>
 def RES(f, c): return [13, f, c]          # move || res_f.get().map(|_| c): synchronous read of a resource
+def LS(f, pre, post, c): return [14, f, pre, post, c]   # Suspend { [local.await;] f.await; [local.await;] c }
+NEVER = -1                                # "future" of a LocalResource: never completes on the server
 def Cm(f): return [0, f]
 P = [1]
-LEPTOS_KINDS = {10, 11, 12, 13}
+LEPTOS_KINDS = {10, 11, 12, 13, 14}
 TICK, CREATE, RENDER = [2], [3], [4]      # extra schedule events of opcode 1 (executor turns under control)
 TAGS = ["div", "p", "span", "b"]
 
@@ -73,6 +75,8 @@ def futures_of(v):
         return [f for c in v[1:] for f in futures_of(c)]
     if k in (3, 7, 13):
         return [v[1]] + futures_of(v[2])
+    if k == 14:
+        return [v[1]] + futures_of(v[4])
     if k == 4:
         return [v[1]] + futures_of(v[2]) + futures_of(v[3])
     if k == 10:
@@ -102,6 +106,8 @@ def children(v):
         return v[1:]
     if k in (3, 7, 13):
         return [v[2]]
+    if k == 14:
+        return [v[4]]
     if k == 4:
         return [v[2], v[3]]
     if k == 10:
@@ -149,6 +155,9 @@ def show_view(v):
         return "<%s fallback=%s>%s</%s>" % (n, show_view(v[1]), show_view(v[2]), n)
     if k == 13:
         return "{move || res%d.get().map(|_| %s)}" % (v[1], show_view(v[2]))
+    if k == 14:
+        return "Suspend(%sf%d.await; %s-> %s)" % ("local.await; " if v[2] else "", v[1],
+                                                   "local.await; " if v[3] else "", show_view(v[4]))
     return "?"
 
 
@@ -194,6 +203,8 @@ def gen_view(rng, lab, fut, depth, allow, in_fallback=False, in_susp=False):
             opts += [12]
         if 13 in allow and in_susp and not in_fallback and fut[0] < fut[1]:
             opts += [13, 13, 13]
+        if 14 in allow and in_susp and not in_fallback and fut[0] < fut[1]:
+            opts += [14, 14]
     k = rng.choice(opts)
     if k == 0:
         return T(lab.text())
@@ -210,6 +221,11 @@ def gen_view(rng, lab, fut, depth, allow, in_fallback=False, in_susp=False):
         f = fut[0]
         fut[0] += 1
         return RES(f, gen_view(rng, lab, fut, min(depth - 1, 1), {0, 1, 2}, True))
+    if k == 14:
+        f = fut[0]
+        fut[0] += 1
+        pre, post = rng.choice([(1, 0), (0, 1), (0, 1), (1, 1), (0, 0)])
+        return LS(f, pre, post, gen_view(rng, lab, fut, min(depth - 1, 1), {0, 1, 2}, True))
     if k == 4:
         f = fut[0]
         fut[0] += 1
@@ -281,6 +297,16 @@ def templates():
     t.append(("l-res-sib", d(Tu(SU(p(T("L1")), RES(1, p(T("C1")))), SU(p(T("L2")), RES(2, p(T("C2"))))))))
     t.append(("l-res-nest", d(SU(p(T("L1")), Tu(RES(1, p(T("C1"))), SU(E(2, T("L2")), RES(2, E(3, T("C2")))))))))
     t.append(("l-res-eb", d(Tu(p(T("h")), EB(SU(E(2, T("L1")), RES(1, E(3, T("C1"))))), E(2, T("t"))))))
+    # Suspend bodies that read a LocalResource (always pending on the server): the boundary gives
+    # up and keeps its fallback — also when the read happens only after another await
+    for nm, pre, post in (("first", 1, 0), ("after", 0, 1), ("both", 1, 1), ("none", 0, 0)):
+        t.append(("l-local-" + nm, d(Tu(E(2, T("x")), SU(E(3, T("L1")), LS(1, pre, post, E(3, T("C1")))), E(2, T("t"))))))
+    t.append(("l-local-trans", d(Tu(E(2, T("x")), TR(E(3, T("L1")), LS(1, 0, 1, E(3, T("C1")))), E(2, T("t"))))))
+    t.append(("l-local-two", d(SU(p(T("L1")), Tu(LS(1, 0, 1, p(T("C1"))), p(T("m")), LS(2, 0, 1, p(T("C2"))))))))
+    t.append(("l-local-mixed", d(SU(p(T("L1")), Tu(S(1, p(T("C1"))), LS(2, 0, 1, p(T("C2"))))))))
+    t.append(("l-local-nest-inner", d(SU(p(T("L1")), Tu(S(1, p(T("C1"))), SU(E(2, T("L2")), LS(2, 0, 1, E(3, T("C2")))))))))
+    t.append(("l-local-nest-outer", d(SU(p(T("L1")), Tu(LS(1, 0, 1, p(T("C1"))), SU(E(2, T("L2")), S(2, E(3, T("C2")))))))))
+    t.append(("l-local-sib", d(Tu(SU(p(T("L1")), LS(1, 0, 1, p(T("C1")))), SU(p(T("L2")), S(2, p(T("C2"))))))))
     t.append(("F-C07", Tu(a, S(1, b), c)))
     t.append(("F-C07-before", Tu(S(1, a), b)))
     return t
@@ -375,7 +401,7 @@ FAMILIES = [
     ("real", {0, 1, 2, 3}),
     ("boundary", {0, 1, 2, 3, 4}),
     ("api", {0, 1, 2, 3, 4, 5, 6, 7}),
-    ("leptos", {0, 1, 2, 3, 10, 11, 12, 13}),
+    ("leptos", {0, 1, 2, 3, 10, 11, 12, 13, 14}),
 ]
 
 
@@ -389,7 +415,7 @@ def res_placement_ok(v, in_susp=False):
     """a synchronous resource read is only streamed correctly under a <Suspense>/<Transition>
     (and not inside the content of a Suspend, which nobody re-resolves)"""
     k = v[0]
-    if k == 13:
+    if k in (13, 14):
         return in_susp
     if k in (11, 12):
         return res_placement_ok(v[1], False) and res_placement_ok(v[2], True)
@@ -458,6 +484,9 @@ def wf_view(v, in_fallback):
     if k == 13:
         return len(v) == 3 and isinstance(v[1], int) and v[1] > 0 and wf_view(v[2], True) \
             and not futures_of(v[2])
+    if k == 14:
+        return len(v) == 5 and isinstance(v[1], int) and v[1] > 0 and v[2] in (0, 1) and v[3] in (0, 1) \
+            and wf_view(v[4], True) and not futures_of(v[4])
     return False
 
 
@@ -582,10 +611,23 @@ def py_render(v, flag, dropped=frozenset()):
     if k == 6:
         return text_of_node(v), flag
     if k in (11, 12):
-        return py_render(v[2], flag, dropped)
+        # a boundary that reads a LocalResource can never resolve on the server: it keeps its fallback
+        return py_render(v[1] if reads_local(v[2]) else v[2], flag, dropped)
     if k == 13:
         return py_render(v[2], flag, dropped)      # closure -> Option::Some(view): transparent
+    if k == 14:
+        return py_render(v[4], flag, dropped)      # only reached without a local read
     raise ValueError(v)
+
+
+def reads_local(v):
+    """does a boundary with these children read a LocalResource (in a Suspend it awaits itself)"""
+    k = v[0]
+    if k == 14:
+        return bool(v[2] or v[3])
+    if k in (3, 11, 12, 4, 7, 13):
+        return False
+    return any(reads_local(c) for c in children(v))
 
 
 def awaited(v):
@@ -594,6 +636,8 @@ def awaited(v):
     k = v[0]
     if k in (3, 13):
         return [v[1]]
+    if k == 14:
+        return [v[1]] + ([NEVER] if v[2] or v[3] else [])
     if k in (11, 12, 4, 7):
         return []
     return [f for c in children(v) for f in awaited(c)]
@@ -609,12 +653,14 @@ def label_scopes(v, chain, out):
             out.append((html_escape(s), list(chain)))
     elif k in (3, 7, 13):
         label_scopes(v[2], chain + [("content", [v[1]])], out)
+    elif k == 14:
+        label_scopes(v[4], chain + [("content", [v[1]] + ([NEVER] if v[2] or v[3] else []))], out)
     elif k == 4:
         label_scopes(v[2], chain + [("fallback", [v[1]])], out)
         if v[4]:
             label_scopes(v[3], chain + [("content", [v[1]])], out)
     elif k in (11, 12):
-        aw = awaited(v[2])
+        aw = awaited(v[2])      # contains NEVER if a LocalResource is read: the children never show
         label_scopes(v[1], chain + [("fallback", aw)], out)
         label_scopes(v[2], chain + [("content", aw)], out)
     else:
@@ -803,11 +849,14 @@ def pos_free(ooo, v, flag, init, strict, in_suspense=False, dropped=frozenset())
         return rec(v[1], flag, strict)
     if k == 13:
         return rec(v[2], flag, strict)
+    if k == 14:
+        return rec(v[4], flag, strict)
     if k == 7:
         return rec(v[2], flag, True)
     if k in (11, 12):
         handed = flag if ooo else False
-        return end_flag(v[2], flag, dropped) == handed and rec(v[2], flag, True, True)
+        shown = v[1] if reads_local(v[2]) else v[2]
+        return end_flag(shown, flag, dropped) == handed and rec(shown, flag, True, True)
     return True
 
 
